@@ -96,6 +96,7 @@ pub struct St {
     pub diverged: bool,
     pub quiet_survey: bool,
     pub fail_next: bool, // the running try_map_root callback returns Err
+    pub leaked: std::collections::HashSet<u32>, // RefLock nodes frozen by a leaked RefMut
 }
 
 pub fn phase_name(p: CollectionPhase) -> &'static str {
@@ -148,6 +149,7 @@ impl St {
             sets: Vec::new(),
             diverged: false,
             quiet_survey: false,
+            leaked: Default::default(),
             fail_next: false,
         }
     }
@@ -272,7 +274,8 @@ impl St {
     pub fn kids_of<'gc>(p: Ptr<'gc>) -> (Vec<Ptr<'gc>>, Vec<WPtr<'gc>>) {
         match p {
             Ptr::N(g) => {
-                let b = g.borrow();
+                // a cell frozen by a leaked RefMut cannot be read
+                let Ok(b) = g.try_borrow() else { return (vec![], vec![]) };
                 (b.strong.iter().collect(), b.weak.iter().collect())
             }
             Ptr::S(_) => (vec![], vec![]),
@@ -291,7 +294,7 @@ impl St {
     /// (intact, live) of the value behind a pointer whose block is known to be allocated
     fn value_check<'gc>(p: Ptr<'gc>, serial: u32) -> (bool, bool) {
         match p {
-            Ptr::N(g) => g.borrow().hdr.check(serial),
+            Ptr::N(g) => g.try_borrow().map(|b| b.hdr.check(serial)).unwrap_or((true, true)),
             Ptr::S(g) => g.borrow().hdr.check(serial),
             Ptr::L(g) => {
                 let v = g.get();
@@ -397,7 +400,14 @@ impl St {
                 let got: Vec<Option<u32>> = ks.iter().map(|c| tag_of_addr(c.addr()).map(|t| t.0)).collect();
                 let want: Vec<Option<u32>> =
                     self.sh_strong.get(&serial).map(|v| v.iter().map(|s| Some(*s)).collect()).unwrap_or_default();
-                let content_ok = got == want;
+                let frozen = self.leaked.contains(&serial);
+                if let (Ptr::N(g), false) = (p, frozen) {
+                    if g.try_borrow().is_err() {
+                        ev!("{{\"ev\":\"deref\",\"a\":{},\"o\":{},\"ok\":false,\"why\":\"borrowed\"}}", self.id, serial);
+                        continue;
+                    }
+                }
+                let content_ok = frozen || got == want;
                 if !self.quiet_survey || !content_ok {
                     ev!(
                         "{{\"ev\":\"deref\",\"a\":{},\"o\":{},\"ok\":{},\"why\":\"{}\"}}",
@@ -762,6 +772,15 @@ impl St {
         ev!("{{\"ev\":\"barrier\",\"a\":{},\"p\":{},\"c\":{},\"path\":\"{}\"}}", self.id, ps, cs, path);
         true
     }
+
+    /// `mem::forget(p.borrow_mut(mc))`: safe code that leaves the RefLock mutably borrowed for good.
+    pub fn leak<'gc>(&mut self, mc: &Mutation<'gc>, ps: u32, p: Ptr<'gc>) -> bool {
+        let Ptr::N(g) = p else { return false };
+        std::mem::forget(g.borrow_mut(mc));
+        self.leaked.insert(ps);
+        ev!("{{\"ev\":\"barrier\",\"a\":{},\"p\":{},\"c\":{},\"path\":\"borrow_mut\",\"leak\":true}}", self.id, ps, ps);
+        true
+    }
 }
 
 // ====================================================================== the arena wrapper
@@ -986,9 +1005,10 @@ impl World {
 
     /// A collection call of exactly the model's size: `b` earning events of granularity `g`.
     /// `natural` skips the debt preparation (the pacing configured by the caller decides).
-    pub fn call(&mut self, kind: &str, b: u32, g: &str, cont: bool, natural: bool, fin: Option<FinOp>) {
+    /// Returns whether the call returned normally.
+    pub fn call(&mut self, kind: &str, b: u32, g: &str, cont: bool, natural: bool, fin: Option<FinOp>) -> bool {
         if self.arena.is_none() {
-            return;
+            return false;
         }
         let pay = matches!(kind, "collect_debt" | "mark_debt" | "cycle_debt");
         if pay && !natural {
@@ -1062,6 +1082,7 @@ impl World {
             trace_calls(),
             self.state_fields()
         );
+        !panicked
     }
 
     pub fn debt_q_pub(&self) -> i64 {
@@ -1083,6 +1104,21 @@ impl World {
         ev!(
             "{{\"ev\":\"set_pacing\",\"a\":{},\"sf\":{},\"ms\":{},\"mf\":{},\"tf\":{},\"kf\":{},\"df\":{},\"ff\":{}}}",
             self.st.id, sf, ms, mf, tf, kf, df, ff
+        );
+    }
+
+    /// The collector's internal state, for validation against the concrete specification
+    /// (GcArenaTrace.tla).  Objects are named by their serials.
+    pub fn snap(&self) {
+        let Some(arena) = &self.arena else { return };
+        let sn = arena.verif_snapshot();
+        let id = |addr: usize| ALLOC.block_containing(addr).map(|b| b.tag as i64).unwrap_or(-1);
+        let list: Vec<String> = sn.all.iter().map(|(a, c, live, _)| format!("[{},{},{}]", id(*a), c, live)).collect();
+        let q = |v: &Vec<usize>| v.iter().map(|a| id(*a).to_string()).collect::<Vec<_>>().join(",");
+        ev!(
+            "{{\"ev\":\"snap\",\"a\":{},\"phase\":{},\"root_nt\":{},\"count\":{},\"debtQ\":{},\"list\":[{}],\"gray\":[{}],\"gray_again\":[{}],\"sweep\":{},\"sweep_prev\":{}}}",
+            self.st.id, sn.phase, sn.root_needs_trace, self.metrics.total_gc_count(), self.debt_q(), list.join(","),
+            q(&sn.gray), q(&sn.gray_again), sn.sweep.map(id).unwrap_or(0), sn.sweep_prev.map(id).unwrap_or(0)
         );
     }
 
